@@ -153,7 +153,7 @@ theorem chSimplify_spec (hR : Reg R E) (hS : SimpOn R E) (hV : SimpVars R E) (s 
     have e_var : (scSimpFe s.fe.constraints s.fe).variables = s.fe.variables := by rw [hfields]
     have e_fin : (scSimpFe s.fe.constraints s.fe).finalized = s.fe.finalized := by rw [hfields]
     have e_mod : (scSimpFe s.fe.constraints s.fe).models = s.fe.models := by rw [hfields]
-    refine ⟨⟨⟨⟨?_, ?_, h.base.core.noReuse, ?_⟩, ?_, ⟨?_, ?_⟩, ?_, ?_⟩, ?_, ?_⟩, ⟨?_, ?_⟩⟩
+    refine ⟨⟨⟨⟨?_, ?_, h.base.core.noReuse⟩, ?_, ⟨?_, ?_⟩, ?_, ?_, ?_⟩, ?_, ?_⟩, ⟨?_, ?_⟩⟩
     · intro a ha
       show holdsAll (scSimpFe s.fe.constraints s.fe).toAdd a = true
       rw [e_toadd]
@@ -168,7 +168,6 @@ theorem chSimplify_spec (hR : Reg R E) (hS : SimpOn R E) (hV : SimpVars R E) (s 
       show (SatBy (objAt s r).asserted a ∧ holdsAll (scSimpFe s.fe.constraints s.fe).toAdd a = true) ↔
         holdsAll (scSimpFe s.fe.constraints s.fe).constraints a = true
       rw [e_toadd, e_cons]; exact hsem a
-    · show (scSimpFe s.fe.constraints s.fe).track = false; rw [e_track]; exact h.base.core.untracked
     · intro a; show holdsAll (scSimpFe s.fe.constraints s.fe).constraints a = _; rw [e_cons]; exact h.base.equiv a
     · intro c hc
       have : c ∈ (scSimpFe s.fe.constraints s.fe).constraints := hc
@@ -185,6 +184,12 @@ theorem chSimplify_spec (hR : Reg R E) (hS : SimpOn R E) (hV : SimpVars R E) (s 
       rw [e_var]; exact h.base.vars c hc' v hv
     · obtain ⟨s0, hg, hw⟩ := h.base.ghost
       exact ⟨s0, hg, hw.trans (WStep.of_fe rfl rfl e_sol e_fin)⟩
+    · intro ht r hr z hz
+      have ht' : (scSimpFe s.fe.constraints s.fe).track = true := ht
+      have hr' : (scSimpFe s.fe.constraints s.fe).solver = some r := hr
+      rw [e_track] at ht'
+      rw [e_sol] at hr'
+      exact h.base.areg ht' r hr' z hz
     · exact h.mc.of_fields e_mod (by rw [hfields]) (by rw [hfields]) (by rw [hfields]) (by rw [hfields]) (by rw [hfields])
     · show SCInv U { scSimpFe s.fe.constraints s.fe with hashes := _ }
       unfold SCInv
@@ -213,7 +218,7 @@ include H
 theorem cL4_sat_spec {self : Ops} (hh : self.modelHook = mcHook) (extra : List Con) :
     SatSpec R RE E G U extra ((cL4 E self).satisfiable extra) := by
   have h0 : SatSpec R RE E G U extra ((cL0 E self).satisfiable extra) :=
-    full_satisfiable_spec (self := self) (sup := constrainedLayer E self frontendBase) H.oracle H.reg hh extra
+    full_satisfiable_spec (self := self) (sup := constrainedLayer E self frontendBase) H.oracle H.reg H.zid hh extra
   have h1 : SatSpec R RE E G U extra ((cL2 E self).satisfiable extra) :=
     mc_satisfiable_spec (self := self) (sup := cL0 E self) extra h0
   exact satCache_satisfiable_spec (self := self) (sup := cL2 E self) extra h1
@@ -221,7 +226,7 @@ theorem cL4_sat_spec {self : Ops} (hh : self.modelHook = mcHook) (extra : List C
 theorem cL1_batchEval_spec {self : Ops} (hh : self.modelHook = mcHook) (asts : List Exp) (hre : ∀ e ∈ asts, RE e) (n : Nat)
     (hn : 1 ≤ n) (extra : List Con) : BatchSpec R RE E G U asts n extra ((cL2 E self).batchEval asts n extra) := by
   have h0 : ∀ n' extra', 1 ≤ n' → BatchSpec R RE E G U asts n' extra' ((cL0 E self).batchEval asts n' extra') :=
-    fun n' extra' hn' => full_batchEval_spec (self := self) (sup := constrainedLayer E self frontendBase) H.oracle H.reg
+    fun n' extra' hn' => full_batchEval_spec (self := self) (sup := constrainedLayer E self frontendBase) H.oracle H.reg H.zid
       H.evalComplete H.expReg hh asts n' hn' extra'
   exact mc_batchEval_spec (sup := cL0 E self) H.pick H.expReg asts hre n hn extra h0
 
@@ -232,7 +237,7 @@ theorem cL4_batchEval_spec {self : Ops} (hh : self.modelHook = mcHook) (asts : L
 theorem cL4_eval_spec {self : Ops} (hh : self.modelHook = mcHook) (e : Exp) (he : RE e) (hc : e.conc = none) (n : Nat)
     (hn : 1 ≤ n) (extra : List Con) : EvalSpec R RE E G U e n extra ((cL4 E self).eval e n extra) := by
   have h0 : ∀ n' extra', 1 ≤ n' → BatchSpec R RE E G U [e] n' extra' ((cL0 E self).batchEval [e] n' extra') :=
-    fun n' extra' hn' => full_batchEval_spec (self := self) (sup := constrainedLayer E self frontendBase) H.oracle H.reg
+    fun n' extra' hn' => full_batchEval_spec (self := self) (sup := constrainedLayer E self frontendBase) H.oracle H.reg H.zid
       H.evalComplete H.expReg hh [e] n' hn' extra'
   have h1 : EvalSpec R RE E G U e n extra ((cL2 E self).eval e n extra) :=
     mc_eval_spec (self := self) (sup := cL0 E self) H.pick H.expReg e he hc n hn extra h0
@@ -256,7 +261,7 @@ theorem cL4_opt_spec {self : Ops} (hs : ChOk R RE E G self) (isMax : Bool) (e : 
     have : (if isMax then (cL0 E self).max e extra signed else (cL0 E self).min e extra signed) =
         fullExtremum E self isMax e extra signed := by cases isMax <;> rfl
     rw [this]
-    exact full_extremum_spec H.oracle H.reg H.evalComplete H.expReg hs.hook isMax e he hc extra signed (hs.sat U extra)
+    exact full_extremum_spec H.oracle H.reg H.zid H.evalComplete H.expReg hs.hook isMax e he hc extra signed (hs.sat U extra)
       (hs.eval U e 2 extra he hc (by omega))
   have h1 : OptSpec R RE E G U isMax e extra signed
       (if isMax then (cL2 E self).max e extra signed else (cL2 E self).min e extra signed) := by
@@ -269,7 +274,7 @@ theorem cL4_opt_spec {self : Ops} (hs : ChOk R RE E G self) (isMax : Bool) (e : 
 theorem cL4_solution_spec {self : Ops} (hh : self.modelHook = mcHook) (e : Exp) (hc : e.conc = none) (v : Nat)
     (hv : v < 2 ^ e.bits) (extra : List Con) : SolSpec R RE E G U e v extra ((cL4 E self).solution e v extra) := by
   have h0 : SolSpec R RE E G U e v extra ((cL0 E self).solution e v extra) :=
-    full_solution_spec (self := self) (sup := constrainedLayer E self frontendBase) H.oracle H.reg hh e v hv extra
+    full_solution_spec (self := self) (sup := constrainedLayer E self frontendBase) H.oracle H.reg H.zid hh e v hv extra
   have h1 : SolSpec R RE E G U e v extra ((cL2 E self).solution e v extra) :=
     mc_solution_spec (self := self) (sup := cL0 E self) e hc v extra h0
   exact satCache_solution_spec (self := self) (sup := cL2 E self) e v extra h1
@@ -287,15 +292,16 @@ theorem cL4_truth_spec (self : Ops) (isTrue : Bool) (c : Con) (extra : List Con)
     cases isTrue <;> rfl
   rw [hrun]
   simp only [bind, M.bind]
-  have hgs := getSolver_spec s h.base.core
+  have hgsT := getSolverG_spec H.zid s h.base.core h.base.dinv.consR h.base.areg
   rcases hg : getSolver s with ⟨res, s1⟩
-  rw [hg] at hgs
+  rw [hg] at hgsT
   cases res with
-  | error err => exact absurd hgs id
+  | error err => exact absurd hgsT id
   | ok r =>
+    have hgs := hgsT.toGotSolver
     simp only [M.get_apply, M.modify_apply, pure, M.pure]
     have hst : ObjStep r s1 { s1 with tick := s1.tick + 1 } := ⟨rfl, fun _ _ => rfl, rfl, rfl⟩
-    obtain ⟨h2, _⟩ := si_after_query h hgs hst rfl (hookP_start h hgs)
+    obtain ⟨h2, _⟩ := si_after_query h hgsT hst rfl (hookP_start h hgs)
     refine ⟨fun hb a _ => ?_, h2⟩
     cases isTrue
     · exact H.cheap.2.2 c _ hb a
